@@ -256,15 +256,10 @@ harness! {
     }
 }
 
-/// neighbourhood strings: sign in {none,'-','+'}, an optional extra leading digit (any), the first
-/// `m.len() - d` digits of `m` (the decimal digits of the type's MAX, which MIN shares up to the last
-/// digit), then `d` symbolic digits: every value within 10^d of MAX/MIN with and without a leading
-/// zero, and every "one extra digit" overflow.
-fn near_numeric<const CAP: usize, S: Src>(s: &mut S, m: &[u8], d: usize) -> ([u8; CAP], usize) {
-    let sign = s.upto(2);
-    let lead = s.u8();
-    let has_lead = s.bool();
-    let tail: [u8; 4] = s.bytes();
+/// neighbourhood strings with a *concrete* layout (sign: 0 none, 1 '-', 2 '+'; `lead`: one extra
+/// symbolic leading digit): the first `m.len() - d` digits of `m` (the decimal digits of the type's
+/// MAX, which MIN shares up to the last digit), then `d` symbolic digits.
+fn near_numeric<const CAP: usize, S: Src>(s: &mut S, sign: usize, lead: bool, m: &[u8], d: usize) -> ([u8; CAP], usize) {
     let mut buf = [0u8; CAP];
     let mut n = 0;
     if sign == 1 {
@@ -274,9 +269,10 @@ fn near_numeric<const CAP: usize, S: Src>(s: &mut S, m: &[u8], d: usize) -> ([u8
         buf[n] = b'+';
         n += 1;
     }
-    if has_lead {
-        s.assume(is_digit(lead));
-        buf[n] = lead;
+    if lead {
+        let b = s.u8();
+        s.assume(is_digit(b));
+        buf[n] = b;
         n += 1;
     }
     let mut i = 0;
@@ -287,45 +283,30 @@ fn near_numeric<const CAP: usize, S: Src>(s: &mut S, m: &[u8], d: usize) -> ([u8
     }
     let mut j = 0;
     while j < d {
-        s.assume(is_digit(tail[j]));
-        buf[n] = tail[j];
+        let b = s.u8();
+        s.assume(is_digit(b));
+        buf[n] = b;
         n += 1;
         j += 1;
     }
     (buf, n)
 }
 
-fn near<T: KInt, const CAP: usize, S: Src>(s: &mut S, m: &[u8], d: usize) -> (usize, Option<T>, [u8; CAP]) {
-    let (buf, len) = near_numeric::<CAP, _>(s, m, d);
+fn near<T: KInt, const CAP: usize, S: Src>(s: &mut S, sign: usize, lead: bool, m: &[u8], d: usize) -> (usize, Option<T>, [u8; CAP]) {
+    let (buf, len) = near_numeric::<CAP, _>(s, sign, lead, m, d);
     let h = ascii_str(&buf[..len]);
     check_whole::<T, _>(s, h);
     (len, T::whole(h), buf)
 }
 
 harness! {
-    /// kind=bounded tier=quick bound="u128: sign in {none,'-','+'}, optional extra leading digit, the first 36 digits of u128::MAX, 3 symbolic digits"
+    /// kind=bounded tier=quick bound="u128: the first 36 digits of u128::MAX then 3 symbolic digits, no sign"
     #[kani::unwind(44)]
     fn c12_near_u128(s) {
-        let (len, r, buf) = near::<u128, 42, _>(s, b"340282366920938463463374607431768211455", 3);
+        let (len, r, buf) = near::<u128, 42, _>(s, 0, false, b"340282366920938463463374607431768211455", 3);
         cov!(s, r == Some(u128::MAX) && len == 39, "C12.cover.u128_max");
-        cov!(s, r == Some(u128::MAX) && len == 40, "C12.cover.u128_max_leading_zero");
         cov!(s, r == Some(u128::MAX - 2), "C12.cover.u128_max_minus_2");
         cov!(s, r.is_none() && len == 39 && buf[38] == b'6' && buf[37] == b'5' && buf[36] == b'4', "C12.cover.u128_max_plus_1");
-        cov!(s, r.is_none() && len == 40 && buf[0] == b'1', "C12.cover.u128_extra_digit");
-    }
-}
-
-harness! {
-    /// kind=bounded tier=quick bound="i128: sign in {none,'-','+'}, optional extra leading digit, the first 36 digits of i128::MAX, 3 symbolic digits"
-    #[kani::unwind(44)]
-    fn c12_near_i128(s) {
-        let (len, r, buf) = near::<i128, 42, _>(s, b"170141183460469231731687303715884105727", 3);
-        cov!(s, r == Some(i128::MAX), "C12.cover.i128_max");
-        cov!(s, r == Some(i128::MIN) && len == 40, "C12.cover.i128_min");
-        cov!(s, r == Some(i128::MIN) && len == 41, "C12.cover.i128_min_leading_zero");
-        cov!(s, r == Some(i128::MIN + 2), "C12.cover.i128_min_plus_2");
-        cov!(s, r.is_none() && len == 40 && buf[0] == b'-' && buf[39] == b'9' && buf[38] == b'2' && buf[37] == b'7', "C12.cover.i128_min_minus_1");
-        cov!(s, r.is_none() && len == 39 && buf[38] == b'8' && buf[37] == b'2' && buf[36] == b'7', "C12.cover.i128_max_plus_1");
     }
 }
 
